@@ -10,17 +10,17 @@ open Osmium.Layout
 /-- "repaired variant, and no stale dereference so far" -/
 def FixOk (s : St) : Prop := s.fixF4 = true ∧ s.dead ≠ some .stale
 
-theorem execMicro_fix (s s' : St) (m : Micro) (h : execMicro s m = .ok s') :
+theorem execBase_fix (s s' : St) (m : Micro) (h : execBase s m = .ok s') :
     s'.fixF4 = s.fixF4 ∧ s'.dead = s.dead := by
   cases m with
   | alloc n save g =>
-    simp only [execMicro] at h
+    simp only [execBase] at h
     split at h
     · cases h
     · injection h with h; subst h; exact ⟨rfl, rfl⟩
-  | upd g => simp only [execMicro] at h; injection h with h; subst h; exact ⟨rfl, rfl⟩
+  | upd g => simp only [execBase] at h; injection h with h; subst h; exact ⟨rfl, rfl⟩
   | deref keep g =>
-    simp only [execMicro] at h
+    simp only [execBase] at h
     split at h
     · cases h
     · split at h
@@ -28,11 +28,12 @@ theorem execMicro_fix (s s' : St) (m : Micro) (h : execMicro s m = .ok s') :
       · split at h
         · injection h with h; subst h; exact ⟨rfl, rfl⟩
         · cases h
+  | finish offs => simp only [execBase] at h; injection h with h; subst h; exact ⟨rfl, rfl⟩
 
-theorem execMicro_nostale (s : St) (m : Micro) (hf : s.fixF4 = true) : execMicro s m ≠ .error .stale := by
+theorem execBase_nostale (s : St) (m : Micro) (hf : s.fixF4 = true) : execBase s m ≠ .error .stale := by
   cases m with
   | alloc n save g =>
-    simp only [execMicro]
+    simp only [execBase]
     split
     · rename_i e hr
       intro h; injection h with h; subst h
@@ -43,9 +44,9 @@ theorem execMicro_nostale (s : St) (m : Micro) (hf : s.fixF4 = true) : execMicro
         · cases hr
       · cases hr
     · simp
-  | upd g => simp [execMicro]
+  | upd g => simp [execBase]
   | deref keep g =>
-    simp only [execMicro]
+    simp only [execBase]
     split
     · simp
     · split
@@ -53,24 +54,62 @@ theorem execMicro_nostale (s : St) (m : Micro) (hf : s.fixF4 = true) : execMicro
       · split
         · simp
         · rename_i hn; simp [hf] at hn
+  | finish offs => simp [execBase]
 
-theorem execMicros_fix (ms : List Micro) (s : St) :
-    (execMicros s ms).1.fixF4 = s.fixF4 ∧ (execMicros s ms).1.dead = s.dead ∧
-    (s.fixF4 = true → (execMicros s ms).2 ≠ some .stale) := by
+/-- generic: the step function keeps `fixF4`/`dead` and never reports `stale` in the repaired variant -/
+theorem execList_fix (ex : St → Micro → Except Err St)
+    (hfix : ∀ s s' m, ex s m = .ok s' → s'.fixF4 = s.fixF4 ∧ s'.dead = s.dead)
+    (hns : ∀ s m, s.fixF4 = true → ex s m ≠ .error .stale) (ms : List Micro) (s : St) :
+    (execList ex s ms).1.fixF4 = s.fixF4 ∧ (execList ex s ms).1.dead = s.dead ∧
+    (s.fixF4 = true → (execList ex s ms).2 ≠ some .stale) := by
   induction ms generalizing s with
-  | nil => simp [execMicros]
+  | nil => simp [execList]
   | cons m ms ih =>
-    simp only [execMicros]
-    cases h : execMicro s m with
+    simp only [execList]
+    cases h : ex s m with
     | error e =>
       refine ⟨rfl, rfl, ?_⟩
       intro hf he
       simp at he; subst he
-      exact execMicro_nostale s m hf h
+      exact hns s m hf h
     | ok s' =>
-      obtain ⟨f1, d1⟩ := execMicro_fix s s' m h
+      obtain ⟨f1, d1⟩ := hfix s s' m h
       obtain ⟨f2, d2, n2⟩ := ih s'
       exact ⟨f2.trans f1, d2.trans d1, fun hf => n2 (f1.trans hf)⟩
+
+theorem execMicro_fix (s s' : St) (m : Micro) (h : execMicro s m = .ok s') :
+    s'.fixF4 = s.fixF4 ∧ s'.dead = s.dead := by
+  cases m with
+  | finish offs =>
+    rcases execMicro_finish s s' offs h with rfl | rfl
+    · exact ⟨rfl, rfl⟩
+    · have := execList_fix execBase execBase_fix execBase_nostale (mCommentText offs []) s
+      exact ⟨this.1, this.2.1⟩
+  | alloc n save g => simp only [execMicro] at h; exact execBase_fix s s' _ h
+  | upd g => simp only [execMicro] at h; exact execBase_fix s s' _ h
+  | deref keep g => simp only [execMicro] at h; exact execBase_fix s s' _ h
+
+theorem execMicro_nostale (s : St) (m : Micro) (hf : s.fixF4 = true) : execMicro s m ≠ .error .stale := by
+  cases m with
+  | finish offs =>
+    have hl := (execList_fix execBase execBase_fix execBase_nostale (mCommentText offs []) s).2.2 hf
+    simp only [execMicro]
+    split
+    · split
+      · simp
+      · simp
+      · rename_i s' e hne he
+        intro h; injection h with h; subst h
+        rw [he] at hl; exact hl rfl
+    · simp
+  | alloc n save g => simp only [execMicro]; exact execBase_nostale s _ hf
+  | upd g => simp only [execMicro]; exact execBase_nostale s _ hf
+  | deref keep g => simp only [execMicro]; exact execBase_nostale s _ hf
+
+theorem execMicros_fix (ms : List Micro) (s : St) :
+    (execMicros s ms).1.fixF4 = s.fixF4 ∧ (execMicros s ms).1.dead = s.dead ∧
+    (s.fixF4 = true → (execMicros s ms).2 ≠ some .stale) :=
+  execList_fix execMicro execMicro_fix execMicro_nostale ms s
 
 theorem unwind_fix (fuel : Nat) (s : St) :
     (unwind fuel s).1.fixF4 = s.fixF4 ∧ (unwind fuel s).1.dead = s.dead := by
@@ -163,7 +202,7 @@ theorem addBuffer_abs (s : St) (hd : s.dead = none) (hv : s.b0.valid = true) (hv
     (step s .addBuffer).2.1 = .ok := by
   obtain ⟨b', hb'⟩ := reserve_ok_of_mode s.b1.comm.length s.b0 hm
   have ha := alloc_abs _ _ _ (fun p => writeAt p s.b0.pend.length s.b1.comm) (by intro p; simp) hb.1 hb'
-  simp only [step, hd, hv, hv1, he, frameSig, plan, runMicros, execMicros, execMicro, hb', applyAfter,
+  simp only [step, hd, hv, hv1, he, frameSig, plan, runMicros, execMicros, execList, execMicro, execBase, hb', applyAfter,
     List.map_nil, List.isEmpty_nil, Bool.not_true, Bool.false_eq_true, or_self, ↓reduceIte]
   refine ⟨?_, ha.2.1, trivial⟩
   rw [ha.1]
@@ -288,7 +327,7 @@ theorem runCopy_aligned (s : St) (d : Bytes) (a : After) (ha' : a = .nothing ∨
     (hs : s.Bounds) (h0 : s.b0.Aligned) (hd : d.length % 8 = 0) :
     (runMicros s [.alloc (fun _ => d.length) false (fun off p => writeAt p off d)] (applyAfter a)).1.b0.Aligned ∧
     (runMicros s [.alloc (fun _ => d.length) false (fun off p => writeAt p off d)] (applyAfter a)).1.b1 = s.b1 := by
-  simp only [runMicros, execMicros, execMicro]
+  simp only [runMicros, execMicros, execList, execMicro, execBase]
   cases hr : reserve d.length s.b0 with
   | error e =>
     cases e <;> simp [unwind, he, h0]
